@@ -141,7 +141,7 @@ class FunctionInfo(object):
                     self.kind = 'staticmethod'
                 elif d.id == 'property':
                     self.kind = 'property'
-        if cls is not None and self.kind == 'function':
+        if cls is not None and self.kind == 'function' and parent is None:
             self.kind = 'method'
 
     @property
